@@ -211,14 +211,14 @@ CHECKS["C09"] = dict(
 
 CHECKS["C11"] = dict(
     technique="TLA+ definition of the round-trip value universe and of the match relation (RtAbs.tla, RtUniverse.tla, enumerated by TLC); "
-              "every value is written with the real .w, read back with .rs and written again, atoms go through x:$$x; the recorded "
+              "every value is written with the real .w, read back with .rs and written again, written to a file channel and read back with .r, atoms go through x:$$x; the recorded "
               "(value, read-back, same text) observations are judged by TLC (RtTrace.tla)",
     text="Every value of the closed universe - integers to the 64-bit extremes, reals with exponents / -0.0 / largest and smallest double, "
          "characters and strings over quotes, blanks, newlines, tabs, brackets, braces, comment markers, symbols; each atom alone, as "
          "only and last list element, nested to depth 3, as dictionary value; 9 key kinds; dictionaries inside lists and dictionaries "
          "(thorough: all pairs of atoms) - must read back to a matching value that is written identically, and x:$$x must match x.",
     note="Trusted: TLC, construction of the Python objects from the universe. The written text itself is not prescribed (only that it reads "
-         "back); .r shares the reader with .rs and is not driven separately.",
+         "back).",
     design_ref="DESIGN.md section 5 C11")
 
 CHECKS["C12"] = dict(
